@@ -699,7 +699,7 @@ class Grammar(Serialize):
         # We change the trees in-place (to support huge grammars)
         # So deepcopy allows calling compile more than once.
         term_defs = [(n, (nr_deepcopy_tree(t), p)) for n, (t, p) in self.term_defs]
-        rule_defs = [(n, p, nr_deepcopy_tree(t), o) for n, p, t, o in self.rule_defs]
+        rule_defs = [(n, p, nr_deepcopy_tree(t), copy(o)) for n, p, t, o in self.rule_defs]
 
         # ===================
         #  Compile Terminals
